@@ -1,1 +1,6 @@
 """qv: exhaustive exploration of quansino under controlled environments (see /verif/DESIGN.md)."""
+
+try:  # the package's sub-packages import each other; mc first is the order the test-suite uses
+    import quansino.mc  # noqa: F401
+except Exception:  # noqa: BLE001  (C08 reports import problems; other checks then fail loudly on use)
+    pass
